@@ -34,7 +34,7 @@ PROFILES = {
     "misuse": dict(w=dict(construct=25, set_leaf=12, set_compound=5, bind=3, copy=3, drop=3, raw=6, grow=5, misuse=38, restart=0, json=0), force_p=dict(strings=0.9, dyn_items=0.8, urefs=0.6, dyn_struct=0.9)),
     "refs": dict(w=dict(construct=25, set_leaf=20, set_compound=2, bind=25, copy=5, drop=4, raw=4, grow=15, misuse=0, restart=0, json=0), force=dict(refs=True, urefs=True), force_p=dict(ref_chain=0.6)),
     "copies": dict(w=dict(construct=25, set_leaf=22, set_compound=5, bind=8, copy=25, drop=6, raw=4, grow=8, misuse=0, restart=0, json=0, kill=7), force_p=dict(ref_chain=0.4)),
-    "restart": dict(w=dict(construct=25, set_leaf=20, set_compound=5, bind=6, copy=4, drop=3, raw=4, grow=8, misuse=0, restart=25, json=0)),
+    "restart": dict(w=dict(construct=25, set_leaf=20, set_compound=5, bind=6, copy=4, drop=3, raw=4, grow=12, misuse=0, restart=25, json=0), force_p=dict(class_arrays=0.8)),
     "json": dict(w=dict(construct=35, set_leaf=20, set_compound=5, bind=0, copy=3, drop=2, raw=4, grow=5, misuse=0, restart=0, json=26), force=dict(refs=False, urefs=False)),
 }
 
@@ -373,6 +373,11 @@ class GenSource:
         tops = self.top_types(w)
         comp = [t for t in tops if w.schema[t]["k"] != "str"]
         t = rng.choice(comp[-6:]) if comp and rng.random() < 0.85 else rng.choice(tops)
+        if self.profile in ("restart", "hybrid_restart") and rng.random() < 0.3:
+            # stand-alone, class-declared (hence picklable) arrays of numbers
+            pa = [i for i in tops if w.schema[i]["k"] == "array" and w.schema[i]["decl"] == "class" and w.schema[w.schema[i]["item"]]["k"] == "sc"]
+            if pa:
+                t = rng.choice(pa)
         if typegen.leaf_count(w.schema, t, 2) > 150:
             t = rng.choice(tops)
         place = self.place(w)
@@ -1257,6 +1262,8 @@ class Step:
                 M.adopt_locs(None, got, w.schema, o.t, o.node)
             except Exception as e:
                 prop = step_prop.get(kind, "C10")
+                if getattr(o.buf, "_sim_restored", False):
+                    prop = "C20"
                 self.viol(prop, "handle_read_raised", [kind, exc_sig(e), typegen.features(w.schema, o.t)], f"object {o.k}: {type(e).__name__}: {e}")
                 continue
             want = M.snapshot(w.schema, o.t, o.node)
@@ -1269,6 +1276,8 @@ class Step:
                     prop = "C08"
                 else:
                     prop = "C10"
+                if getattr(o.buf, "_sim_restored", False):
+                    prop = "C20"  # an unpickled object must stay usable: whatever goes wrong in a restored buffer is C20's
                 self.viol(prop, "handle_ne_model", [kind, typegen.features(w.schema, o.t), "xref" if xref else "direct"], f"object {o.k}: {d}; after {str(self.op)[:300]}")
                 continue
             # 4b: freshly rebuilt view vs handle (C06, never consults the model)
